@@ -13,3 +13,4 @@ func (db *DB) verifMetaEvent(m *common.Meta) {}
 func (db *DB) verifAlloc(txid common.Txid, pgid common.Pgid, n int, fromFree bool) {}
 
 func (db *DB) verifRefused(txid common.Txid, n int) {}
+func (db *DB) verifSizeCheck(txid common.Txid, n int) bool { return false }
